@@ -564,13 +564,40 @@ func evalLoad(c *core.Ctx, f []string) *core.Case {
 		if orig == nil {
 			return "", ""
 		}
-		in := map[bindingT]bool{}
-		for _, b := range orig.bindings {
-			in[b] = true
-		}
 		origData := core.UnHex(f[4])
 		class := faultClass(data, origData)
 		dRecs, oRecs := dhcp.VerifDecode(data).Leases, dhcp.VerifDecode(origData).Leases
+		// the reference set "bindings of the original file" is built from the RECORDS of the intact file (decoded
+		// independently of the constructor) by the documented acceptance rule - allocated, IPv4 address inside the home LAN,
+		// non-empty client identifier, the last record of a client identifier wins - not from the implementation's own
+		// load of that file (audit G2); the implementation's load of the intact file must be exactly this set
+		byCID := map[string]bindingT{}
+		for _, o := range oRecs {
+			if o.State == 2 && o.IP.Is4() && inHome(cfgIdx, ipOf(o.IP)) && len(o.CID) > 0 {
+				byCID[string(o.CID)] = bindingT{string(o.CID), string(o.MAC), ipOf(o.IP)}
+			}
+		}
+		in := map[bindingT]bool{}
+		for _, b := range byCID {
+			in[b] = true
+		}
+		if orig.impl != "err" && !strings.HasPrefix(orig.impl, "ok") {
+			return "constructing the handler from the intact file ended in " + orig.impl, ""
+		}
+		if strings.HasPrefix(orig.impl, "ok") && origResetFree(cfgIdx, origData) {
+			if len(orig.bindings) != len(in) {
+				return fmt.Sprintf("the intact file holds %d acceptable lease records, the constructor loads %d bindings", len(in), len(orig.bindings)), ""
+			}
+			for _, b := range orig.bindings {
+				if !in[b] {
+					return fmt.Sprintf("the constructor loads %s -> client %x from the intact file, which holds no such acceptable record", c11.Addr(b.ip), b.cid), ""
+				}
+			}
+		} else {
+			// the intact file is not accepted under this configuration (changed-config class): the reference is the empty table
+			in = map[bindingT]bool{}
+		}
+		nOrig := len(in)
 		// files of the repaired saveConfig (dhcp.load): intact or empty, nothing else, no exception.
 		// legacy files (dhcp.loadlegacy: no integrity line, outside the quantifier of C18 since the repaired saveConfig
 		// never writes one): the documented behaviour of the unchanged legacy path is tolerated in exactly the shapes
@@ -591,8 +618,8 @@ func evalLoad(c *core.Ctx, f []string) *core.Case {
 			}
 			n++
 		}
-		if n != 0 && n != len(orig.bindings) {
-			what := fmt.Sprintf("damaged lease file (%s) yields %d of the %d original bindings (neither intact nor empty)", class, n, len(orig.bindings))
+		if n != 0 && n != nOrig {
+			what := fmt.Sprintf("damaged lease file (%s) yields %d of the %d original bindings (neither intact nor empty)", class, n, nOrig)
 			if !legacy {
 				return what, ""
 			}
@@ -621,6 +648,19 @@ func evalLoad(c *core.Ctx, f []string) *core.Case {
 		cs.Cmp = func(a, b string) bool { return true }
 	}
 	return cs
+}
+
+// origResetFree reports whether the intact file's subnet sections are the configured ones, i.e. the constructor has no
+// reason to reset (decided from the decoded records, not from the constructor's result).
+func origResetFree(cfgIdx int, origData []byte) bool {
+	d := dhcp.VerifDecode(origData)
+	if d.Err || d.Net1 == nil || d.Net2 == nil {
+		return false
+	}
+	k := &c11.Cfgs[cfgIdx]
+	return d.Net1.LAN.Masked() == k.Home.Masked() && d.Net1.DefaultGW == k.Router && d.Net1.DNSServer == k.DNS && d.Net1.DHCPServer == k.Host &&
+		d.Net2.LAN.Masked() == k.Netfilter.Masked() && d.Net2.DefaultGW == k.Netfilter.Addr() && d.Net2.DHCPServer == k.Host &&
+		d.Net2.DNSServer == netip.MustParseAddr("1.1.1.3")
 }
 
 func ipOf(a netip.Addr) uint32 {
